@@ -258,6 +258,14 @@ func propC05(c *Ctx) {
 		}
 	}
 
+	rer := c.Rule("eval-recover", "the optimizer's private VM, which runs candidate expressions during Compile, is created with recovery enabled (the panic-reach rule excludes the VM on that ground)", 1)
+	ruleEvalRecover(c, rer)
+
+	if vf := getVMFacts(c, rer); vf != nil {
+		rod := c.Rule("operand-decode", "every multi-byte operand the VM reads from the instruction stream is assembled big-endian from adjacent bytes, matching MakeInstruction (well-formed bytecode is read back as it was written)", 10)
+		ruleOperandDecode(c, rod, vf, "")
+	}
+
 	// ---- op-table ---------------------------------------------------------------------
 	propOpTable(c)
 }
